@@ -22,8 +22,9 @@ CHECKS["C17"] = dict(
     category="exploration",
     text="Seeded search over stream segmentations (cuts independent of frame boundaries, short reads, delays in virtual time) and single network faults (bit flip per header field / payload, "
     "truncation + close at a seeded offset, foreign magic) for streams of 1-3 frames; recv_msg's call-by-call results must refine the reference frame parser run on the same faulty bytes, "
-    "terminate after EOF within a bounded number of recv calls, and library-built payloads must parse back to the fields they were built from.",
-    design_ref="DESIGN.md §4.2, §5 C17",
+    "terminate after EOF within a bounded number of recv calls, and library-built payloads must parse back to the fields they were built from. "
+    "Further strata: traffic on another network earlier in the same process, a new connection after one that died inside a message (optionally with the dead socket object's identity recycled), and 2-3 simulated receiver threads inside recv_msg on separate connections under the baton scheduler.",
+    design_ref="DESIGN.md §4.2, §5 C17, §9.7",
     note="Trusted: /verif/ref/frames.py (pinned to fixed points). Socket, network, peer, clock are stubs; recv_msg, msg_ser, payload builders and parsers are real. No timeout on the socket (mid-frame timeouts are outside the quantifier).",
     technique="deterministic simulation: seeded fragmentation schedules + injected stream faults (bit flip, truncation/EOF, foreign magic) against a reference parser; bounded-liveness check on EOF",
 )
@@ -66,8 +67,9 @@ CHECKS["C16"] = dict(
     category="exploration",
     text="send_tx is run as a client of a simulated bitcoind (real rpc_method over the urlopen seam, amounts as 8-decimal JSON text, seeded listing order, injected HTTP/RPC failures) over a UTXO ledger with 2-4 identities of every sender kind "
     "(m-of-n <= 3) and histories of 1-5 sends whose valid results are applied to the ledger. Every returned transaction is checked against the ledger: inputs only from the reported set, exact satoshi conservation, recipient and change amounts and scripts, "
-    "version/locktime, and - when signed - every input under independent legacy and BIP143 signature hashes for all six sighash flags with a template-level validator. Under an injected RPC fault the call may raise but must never return a transaction.",
-    design_ref="DESIGN.md §4.4, §5 C16",
+    "version/locktime, and - when signed - every input under independent legacy and BIP143 signature hashes for all six sighash flags with a template-level validator. Under an injected RPC fault the call may raise but must never return a transaction; a send whose amount is below the fee must be refused. "
+    "A further stratum runs 2-3 simulated send_tx callers with different keys concurrently under the baton scheduler; every run starts from a freshly imported package.",
+    design_ref="DESIGN.md §4.4, §5 C16, §9.7",
     note="Trusted: /verif/ref/txref.py (pinned to the BIP143 example transactions, all six hashtypes), /verif/ref/addr.py, /verif/ref/secp256k1.py. The fake node implements scantxoutset only; validator is template-level, not a script interpreter. Two open known findings (D12, D14) are matched by feature; a clean stratum (single input at vout 0, SIGHASH_ALL, v1, locktime 0, exact amounts) must produce no finding at all.",
     technique="deterministic simulation of the remote party (in-process bitcoind + ledger behind the RPC seam, injected RPC faults, scripted entropy) with conservation and signature-validity invariants over send histories",
 )
@@ -127,10 +129,10 @@ def main():
         },
         "engines": [
             {"name": "netsim-thread", "path": "sim/sched.py sim/netsim.py sim/p2penv.py", "serves_properties": ["C18"], "kind_free_text": "virtual-time discrete-event network + baton-passing scheduler over real threads"},
-            {"name": "netsim-stream", "path": "sim/netsim.py", "serves_properties": ["C17"], "kind_free_text": "virtual-time byte-stream with seeded fragmentation, corruption and EOF"},
+            {"name": "netsim-stream", "path": "sim/netsim.py sim/sched.py", "serves_properties": ["C17"], "kind_free_text": "virtual-time byte-stream with seeded fragmentation, corruption and EOF; concurrent receivers under the baton scheduler"},
             {"name": "fssim", "path": "sim/fssim.py", "serves_properties": ["C19"], "kind_free_text": "in-memory file system with process-crash semantics under real io.Buffered* objects; crash point enumeration"},
             {"name": "rngsim", "path": "sim/rngsim.py sim/callersim.py", "serves_properties": ["C01", "C03"], "kind_free_text": "scripted entropy source (boundary / repeated draws) behind the secrets seam; simulated caller threads under the baton scheduler for the concurrent strata"},
-            {"name": "nodesim", "path": "sim/nodesim.py", "serves_properties": ["C16"], "kind_free_text": "in-process fake bitcoind + UTXO ledger behind the urlopen seam"},
+            {"name": "nodesim", "path": "sim/nodesim.py sim/callersim.py", "serves_properties": ["C16"], "kind_free_text": "in-process fake bitcoind + UTXO ledger behind the urlopen seam; concurrent callers under the baton scheduler"},
         ],
         "checks": checks,
         "notes": "Technique family: deterministic simulation with fault injection. See DESIGN.md. known_findings.json lists fixed and open findings. Checks exit 2 (HARNESS-ERROR, no VIOLATION line) when the machinery itself fails.",
